@@ -44,6 +44,30 @@ def shape_obligations(ctx, pid, propdef, shapes_list):
     return obls
 
 
+def av_obligations(ctx, pid, shapes_list):
+    """rtosc_avmessage on the shapes without brackets (every 3rd in quick)."""
+    d = {"RTOSC_C": '"%s"' % os.path.join(ctx.repo, "src/rtosc.c")}
+    for k, f in (("ARGVAL_C", "arg-val.c"), ("ARGVAL_ITR_C", "arg-val-itr.c"), ("ARGEXT_C", "arg-ext.c"),
+                 ("ARGVAL_MATH_C", "arg-val-math.c")):
+        d[k] = '"%s"' % os.path.join(ctx.repo, "src/cpp", f)
+    obls = []
+    for sh in shapes_list:
+        if "[" in sh.tags or "]" in sh.tags or not sh.tags:
+            continue
+        path = shapes.write_shape(ctx.scratch, sh)
+        obls.append(Obl("%s.avmessage.%s" % (pid, sh.key()), pid, "harness/C01/avmessage.c", entry="h_avmessage",
+                        defines=dict(d, SHAPE_H='"%s"' % path), includes=[os.path.join(ctx.repo, "src/cpp")], mode="bounded",
+                        bound="shape-bounded: tags/lengths fixed per shape, payloads+capacity symbolic",
+                        cbmc=["--unwind", str(sh.need() + 12), "--unwinding-assertions"], timeout=900, mem_gb=6,
+                        case=sh.describe()))
+    return obls
+
+
 def obligations(ctx):
     sl = shapes.enumerate_shapes(ctx.tier, ctx.seed)
-    return shape_obligations(ctx, PID, PROPDEF, sl)
+    obls = shape_obligations(ctx, PID, PROPDEF, sl)
+    avs = [s for s in sl if not s.symstr]
+    if ctx.tier == "quick":
+        avs = [s for i, s in enumerate(avs) if i % 3 == 0 or s.tags in ("Ti", "TsN", "hT", "sT", "Tb")]
+    obls += av_obligations(ctx, PID, avs)
+    return obls
